@@ -8,6 +8,7 @@ import (
 	"runtime"
 	"runtime/debug"
 	"sync"
+	"sync/atomic"
 	"time"
 
 	"github.com/hashicorp/raft"
@@ -172,6 +173,36 @@ func c15Run(c *evid.Ctx, cs c15Case) {
 			}
 			if d := model.LogDiff(&out, e); d != "" {
 				c.Violation("C15:accepted-differs:"+cs.Class, fmt.Sprintf("GetLog(%d) %s differs (encoded size %d): %s", e.Index, when, gotEnc, d), replay)
+				return false
+			}
+		}
+		// entries above the 64 KiB read buffer take the reader's second path; read them again
+		// while other goroutines read too (sizes up to a few MiB only: each read allocates)
+		if gotEnc > 60000 && gotEnc < 8<<20 && len(batch) > 0 {
+			var wg sync.WaitGroup
+			var bad atomic.Value
+			for g := 0; g < 4; g++ {
+				wg.Add(1)
+				go func(g int) {
+					defer wg.Done()
+					for r := 0; r < 6; r++ {
+						e := batch[(g+r)%len(batch)]
+						var out raft.Log
+						if err := w.GetLog(e.Index, &out); err != nil {
+							bad.Store(fmt.Sprintf("GetLog(%d) %s, read concurrently, fails: %v", e.Index, when, err))
+							return
+						}
+						if d := model.LogDiff(&out, e); d != "" {
+							bad.Store(fmt.Sprintf("GetLog(%d) %s, read concurrently, differs: %s", e.Index, when, d))
+							return
+						}
+					}
+				}(g)
+			}
+			wg.Wait()
+			c.Count("concurrent_readbacks", 1)
+			if b := bad.Load(); b != nil {
+				c.Violation("C15:accepted-differs-concurrent:"+cs.Class, fmt.Sprintf("entry of encoded size %d: %s", gotEnc, b), replay)
 				return false
 			}
 		}
